@@ -147,7 +147,7 @@ var pureExternPrefixes = []string{
 	"math.", "(*go.uber.org/zap.Logger).", "go.uber.org/zap.", "(*go.uber.org/zap.SugaredLogger).", "time.Now", "time.Since", "(time.Time).", "(time.Duration).",
 	"fmt.Println", "fmt.Printf", "fmt.Print", "log.Print", "unicode.", "unicode/utf8.", "bytes.Equal", "bytes.Compare", "bytes.HasPrefix", "bytes.IndexByte", "bytes.Index",
 	"encoding/hex.EncodeToString", "encoding/hex.EncodedLen", "encoding/hex.DecodedLen", "github.com/0chain/common/core/common.NewError",
-	"runtime.", "(*sync.WaitGroup).", "context.", "github.com/tinylib/msgp/msgp.",
+	"runtime.", "runtime/debug.", "(*sync.WaitGroup).", "context.", "github.com/tinylib/msgp/msgp.",
 }
 
 func isPureExtern(name string) bool {
@@ -861,6 +861,13 @@ func (x *Exec) assignKeysStatic(fc *FuncContract, f *ssa.Function) []string {
 	}
 	sort.Strings(out)
 	return out
+}
+
+func (x *Exec) heapKeyFromTextPkg(e *Expr, pkg *types.Package) string {
+	if e.Kind == eField && e.Args[0].Kind == eIdent && pkg != nil {
+		return "F$" + pkg.Name() + "." + e.Args[0].Name + "$" + e.Name
+	}
+	return x.heapKeyFromText(e)
 }
 
 func (x *Exec) heapKeyFromText(e *Expr) string {
